@@ -577,7 +577,7 @@ def C1(F, rep, FL):
            'a dequeued object is dropped without being encoded: ' + (fmt_events(bad) if bad else 'no path'), nontrivial=True)
 
 
-def A1(F, rep):
+def A1(F, rep, FL=None):
     """the File API hands queue results through unchanged: read() returns what the queue returned, write() forwards its argument,
     good()/eof() report the queue's state (the end-of-file indication the application sees is the queue's)"""
     specs = [('read', 'read', True), ('write', 'write', False), ('good', 'good', True), ('eof', 'eof', True)]
@@ -608,6 +608,14 @@ def A1(F, rep):
             a = calls[0].get('args', [])
             ok = len(a) == 1 and local_id(a[0]) == fn['params'][0]['id']
             why = 'forwards its argument to the queue' if ok else 'does not forward its argument unchanged'
+            if ok:
+                # ... unconditionally: the hand-over is a top-level statement of the function, not one branch of several
+                top = fn['body'].get('body', []) if fn['body'].get('k') == 'Compound' else [fn['body']]
+                skipped = FL is not None and any(out in ('normal', 'return') and not any(e['ev'] == 'call' and e['n'] is calls[0] for e in evs)
+                                                 for evs, out in FL.paths(fn, follow=()))
+                if skipped or not any(strip_all_casts(st_) is calls[0] for st_ in top):
+                    ok = False
+                    why = 'forwards its argument to the queue only on some paths: objects that take another way are never written (or written elsewhere, out of order)'
         rep.ob('A1', 'File::%s' % api, ok, rep.fn_site(fn), 'File::%s %s (m_readWriteQueue.%s)' % (api, why, qm), nontrivial=True)
 
 
@@ -1117,6 +1125,24 @@ def F3F4(F, rep, FL):
     rep.ob('F4', 'cut-size', bad is None and n > 0, rep.fn_site(fn),
            'uncompressedFile2CompressedFile: reads defaultLogContainerSize() bytes into a buffer of that size; uncompressedFileSize := gcount(); buffer resized to it' if bad is None else
            'uncompressedFile2CompressedFile: ' + str(bad), nontrivial=True)
+
+
+def F7(F, rep):
+    """the compressed file is opened exactly as the caller asked: CompressedFile::open passes its mode parameter on unchanged, once.  An
+    added flag (ios::in to "update in place", app, ate) keeps what an earlier file at that path held: the bytes written then depend on
+    that earlier content"""
+    fns = F.functions.get('Vector::BLF::CompressedFile::open', [])
+    if not fns:
+        raise AnalysisBroken('CompressedFile::open vanished')
+    fn = fns[0]
+    rep.count('F7')
+    pids = [p_['id'] for p_ in fn['params'][1:2]]     # (filename, mode)
+    opens = [n for n in walk(fn['body']) if n.get('k') == 'Call' and n.get('fn') == 'open' and (member_path(n.get('obj')) or (None,))[-1] == 'm_file']
+    ok = len(opens) == 1 and pids and len(opens[0].get('args', [])) >= 2 and local_id(deep_resolve(opens[0]['args'][1], fn)) == pids[0] and not Flow_modified(fn, pids[0])
+    rep.ob('F7', 'CompressedFile::open|mode', bool(ok), rep.fn_site(fn),
+           'CompressedFile::open opens the stream once, with the mode it was given' if ok else
+           'CompressedFile::open opens the stream %d time(s) / with a mode other than its parameter (%s): what an earlier file at that path held can '
+           'survive into the new one' % (len(opens), ', '.join(expr_str(o['args'][1]) for o in opens if len(o.get('args', [])) > 1)), nontrivial=True)
 
 
 def F4s(F, rep):
